@@ -446,6 +446,27 @@ def check_property(pid, tier='quick', seed=0):
                     undecided.append('%s: %s fails although neither %s nor any data item differs from the reference tree (solver instability)' % (r.name, f['obligation'], own))
                     continue
             violations.append((r, f))
+    # bounded stand-ins (labelled bounded, never counted): for items that could not be brought under contract on
+    # this tree, and for the parts of the property no contract reaches yet
+    from . import cex as cexmod
+    bounded = []
+    stub_keys = []
+    for r in runs:
+        for key in getattr(r, 'stubbed', {}):
+            if pid in (r.obligations.get('%s.safety' % key, {}).get('tags') or []):
+                stub_keys.append(key)
+    want = list(cexmod.PROPERTY_BOUNDED.get(pid, []))
+    for k in stub_keys:
+        for h in cexmod.ITEM_HARNESS.get(k, []):
+            if h not in want:
+                want.append(h)
+    bounded_cex = None
+    if os.environ.get('VERIF_NO_BOUNDED') != '1':
+        for h in want:
+            d = cexmod.run_harness(h)
+            bounded.append(dict(harness=h, bound=d.get('bound'), cases=d.get('cases'), verdict=d.get('status'), counterexample=d.get('counterexample'), cmd=d.get('cmd'), note=d.get('note')))
+            if d.get('status') == 'counterexample' and bounded_cex is None:
+                bounded_cex = d
     for l in kf_lines:
         print(l)
     # known findings leave their obligation undischarged by construction: count them out of both numbers
@@ -482,6 +503,17 @@ def check_property(pid, tier='quick', seed=0):
         print('VIOLATION property=%s replay=%s%s' % (pid, path, tail))
         rep_paths.append(path)
         rc = 1
+    elif bounded_cex is not None:
+        os.makedirs(os.path.join(OUT, 'replay'), exist_ok=True)
+        path = os.path.join(OUT, 'replay', '%s-bounded-%s.json' % (pid, bounded_cex['harness']))
+        what = 'items not under contract on this tree: %s' % ', '.join(stub_keys) if stub_keys else 'part of the property outside the contracts (bounded stand-in)'
+        rep = dict(property=pid, obligation='bounded:%s' % bounded_cex['harness'], message='bounded contract check found a failing input on the real crate',
+                   function=what, verifier_output='; '.join(undecided), counterexample=dict(found=True, harness=bounded_cex['harness'], bound=bounded_cex.get('bound'),
+                   input=bounded_cex['counterexample'], replay_cmd=bounded_cex['cmd']), level='bounded (not a proof obligation)')
+        json.dump(rep, open(path, 'w'), indent=1)
+        print('VIOLATION property=%s replay=%s' % (pid, path))
+        violations = [(None, None)]
+        rc = 1
     elif undecided:
         for u in undecided:
             print('UNDECIDED property=%s %s' % (pid, u))
@@ -503,7 +535,7 @@ def check_property(pid, tier='quick', seed=0):
     else:
         n_obl_rep = n_obl
     write_evidence(pid, tier, seed, runs, n_obl_rep, n_dis, len(violations), kf_lines, undecided, time.time() - t0,
-                   extra=dict(obligations_total=n_obl, obligations_not_discharged=kf_obl, **(extra or {})))
+                   extra=dict(obligations_total=n_obl, obligations_not_discharged=kf_obl, bounded=bounded, **(extra or {})))
     if rc == 0:
         print('OK property=%s obligations=%d discharged=%d units=%s wall=%.1fs' % (pid, n_obl, n_dis, ','.join(names), time.time() - t0))
     return rc
